@@ -7,7 +7,7 @@ PROPS = [json.loads(l)["id"] for l in open(os.path.join(V, "properties.jsonl"))]
 COMMON_NOTE = ("Trusted: Lean 4.33 kernel (+ axioms propext, Classical.choice, Quot.sound only; no native_decide/bv_decide/sorry, audited every run); "
                "the generator (clang-14 AST, K translator, probes) and the correspondence harness + differ; gcc/ASan/UBSan. ")
 
-CRED_TXT = 'Credential model lean/Munge/Model/Cred.lean (job_exec -> recv -> enc/dec_process_msg -> send) over abstract primitives: its decision kernels, stage orchestration, constants and error texts are regenerated from dec.c/enc.c/headers every run, its credential parsers (unpackOuter / unpackInner) are PROVED equal to dec_unpack_outer / dec_unpack_inner as re-translated from dec.c every run by the K+cursor translator (Props/UnpackRef.lean), its other parsers/packers are hand-written mirrors tied byte-for-byte to the real job.c/m_msg.c/enc.c/dec.c/base64.c/zip.c/cred.c/replay.c/auth_recv.c by harness/h_cred.c (toy primitives with Lean twins; OpenSSL/zlib/bzlib build judged by oracle). '
+CRED_TXT = 'Credential model lean/Munge/Model/Cred.lean (job_exec -> recv -> enc/dec_process_msg -> send) over abstract primitives: its decision kernels, stage orchestration, constants and error texts are regenerated from dec.c/enc.c/headers every run, its credential parsers (unpackOuter / unpackInner) are PROVED equal to dec_unpack_outer / dec_unpack_inner as re-translated from dec.c every run by the K+cursor translator (Props/UnpackRef.lean), the stage functions that drive the primitives (enc_init, enc_timestamp, enc_compress, enc_mac, enc_encrypt, enc_armor, dec_decrypt, dec_validate_mac, dec_decompress) and the packers are re-translated every run with each call an event and each result a fresh input (Props/C02Stages.lean, Props/C10Pack.lean), its other parsers/packers are hand-written mirrors tied byte-for-byte to the real job.c/m_msg.c/enc.c/dec.c/base64.c/zip.c/cred.c/replay.c/auth_recv.c by harness/h_cred.c (toy primitives with Lean twins; OpenSSL/zlib/bzlib build judged by oracle). '
 
 CLAIMS = {
  "C19": dict(
